@@ -38,11 +38,14 @@ Proof.
   destruct (t_kind d =? K_section); [apply create_spec_length | reflexivity].
 Qed.
 
+Lemma npairs_cons2 : forall x x' r, npairs (x :: x' :: r) = (1 + sc x + npairs (x' :: r))%nat.
+Proof. reflexivity. Qed.
+
 Lemma pairs_spec_length : forall l i q, length (pairs_spec l i q) = npairs l.
 Proof.
   induction l as [|x r IH]; intros i q; [reflexivity|].
   destruct r as [|x' r']; [reflexivity|].
-  rewrite pairs_spec_cons2. cbn [length npairs]. rewrite app_length, sec_creates_length, IH. lia.
+  rewrite pairs_spec_cons2, npairs_cons2. cbn [length]. rewrite app_length, sec_creates_length, IH. lia.
 Qed.
 
 Lemma node_spec_length : forall t p, length (node_spec t p) = nspec t.
@@ -101,7 +104,7 @@ Lemma esum_sub_entries_cons : forall g x r i q,
   (esum g (all_entries x i q) + esum g (sub_entries r (S i) (q + desc x)))%nat.
 Proof.
   intros g x r i q. unfold sub_entries, all_entries. cbn [heads tails].
-  rewrite !esum_app. rewrite !esum_cons, !esum_app. cbn [snd]. lia.
+  rewrite ?esum_app, ?esum_cons, ?esum_app. cbn [snd]. lia.
 Qed.
 
 Fixpoint ssc (l : list tree) : nat := match l with [] => O | c :: r => (sc c + ssc r)%nat end.
@@ -113,7 +116,7 @@ Proof.
   destruct r as [|x' r'].
   - cbn [last_is_leaf] in Hl. destruct x; try discriminate. reflexivity.
   - rewrite last_is_leaf_tail in Hl. specialize (IH ltac:(discriminate) Hl).
-    cbn [npairs length ssc] in *. lia.
+    rewrite npairs_cons2. cbn [length ssc] in *. lia.
 Qed.
 
 Definition claim_count (t : tree) : Prop :=
@@ -140,7 +143,8 @@ Proof.
   - rewrite all_entries_Sub, !esum_cons. cbn [snd].
     apply wf_tree_Sub in Hw. destruct Hw as (_ & Hll & _ & _ & Hall).
     rewrite (count_list cs IH Hall).
-    destruct cs as [|c r]; [reflexivity|].
+    destruct cs as [|c r].
+    { cbn [cspec nspec sc npairs ncreate ssc]. destruct (t_kind d =? K_section); lia. }
     pose proof (npairs_last_leaf (c :: r) ltac:(discriminate) Hll) as Hn.
     cbn [cspec nspec sc length] in *. destruct (t_kind d =? K_section); lia.
 Qed.
